@@ -453,7 +453,7 @@ PLANS = {
     "C19": dict(proofs=["Proofs.C19"], runs=[("c19", dict(quick=4000, thorough=100000))],
                 rule="(regex, multiset of (haystack,start) queries): sequential results vs 3 random orders on one thread vs 16 threads sharing &Regex and a clone, both executors; non-trivial = query has a match",
                 technique="Lean 4 proof (schedule-independence of per-thread executor state; generated type inventory has no interior mutability) + rustc Send/Sync assertion + thread stress"),
-    "C09": dict(proofs=["Proofs.C09", "Proofs.Closure"], runs=[("c09", dict(quick=20000, thorough=400000))],
+    "C09": dict(proofs=["Proofs.C09", "Proofs.Closure", "Proofs.Closure2"], runs=[("c09", dict(quick=20000, thorough=400000))],
                 rule="(pattern from pool/generator, haystack, start, executor); non-trivial = at least one match",
                 technique="Lean 4 proof over the iterator model (parametric in the matcher) + correspondence on attempt tables"),
     "C11": dict(proofs=["Proofs.C11"], runs=[("c11", dict(quick=0, thorough=0))],
@@ -462,7 +462,7 @@ PLANS = {
     "C12": dict(proofs=["Proofs.C12", "Proofs.Lower"], runs=[("c12sets", dict(quick=20000, thorough=400000)), ("c12classes", dict(quick=60000, thorough=1500000))],
                 rule="(a) random well-formed interval sets over small and full universes x set operation, non-trivial = non-empty operands; (b) /^E$/ for generated class expressions E (legacy brackets; v-mode unions, &&, --, nesting, \\q strings, negation) x flags x every mentioned character, its case partners, range neighbours and mentioned strings with single-edit variants, expected answer from the ES specification model, non-trivial = match",
                 technique="Lean 4 proof of the CodePointSet algebra (all inputs) + correspondence through hook wrappers"),
-    "C16": dict(proofs=["Proofs.C16", "Proofs.Closure"], runs=[("c16", dict(quick=2000, thorough=60000))],
+    "C16": dict(proofs=["Proofs.C16", "Proofs.Closure", "Proofs.Closure2"], runs=[("c16", dict(quick=2000, thorough=60000))],
                 rule="(pattern, haystack, match) with named/unnamed/duplicate-named groups; non-trivial = pattern has a named group",
                 technique="Lean 4 proof over the Match accessor model + correspondence"),
     "C17": dict(proofs=["Proofs.C17", "Proofs.Closure"], runs=[("c17", dict(quick=1500, thorough=50000))],
